@@ -12,6 +12,7 @@ CONSTANTS
   FollowRetries = TRUE
   FollowAppend = TRUE
   ResyncChecksRound = TRUE
+  PinsOperatorHash = TRUE
   MaxAgg = 1
   QCap = 1
   Linger = TRUE
